@@ -352,12 +352,13 @@ Print Assumptions C14_x86_compile_asm_wf_lin_needed.
        within the reach of its form (B.cond / ADR +-1 MiB: the routine is shorter).
        Hypotheses, all boolean on the PROGRAM: labels_guard, lin_check_prog (gives calls_guard), plain names / types,
        imm_guard_a64 (a type declares at most 1024 xtors: `ADD Xt, Xt, #4k`; a Substitute lists at most 4096 pairs),
-       reach_guard_a64 (28 + 85 * cg_bound_defs < 262143 instructions, the size theorem of C19).  No hypothesis on
+       reach_guard_a64 (28 + cg_fine_defs 14 74 < 262143 instructions: a two-weight refinement of the size theorem
+       of C19, Proof/SizeCodegenFine.v, SizeA64Fine.v).  No hypothesis on
        literals: every 64-bit pattern is synthesised from half-words.
        The xtor bound is a REAL limit (finding): C14_a64_compile_asm_wf_xtors_needed and docs/C14.md; so is the reach
        (a conditional over more than 1 MiB of code: docs/C14.md), which the guard over-approximates.
    (k) per-method lemmas `A64WfAll.W (method args)`; code_small under the size_guard of x86-64. *)
-From SCC Require Import Sem.WfGuard64 Proof.A64WfAll Proof.A64WfProg Proof.A64WfCor Proof.A64HSimExample Proof.A64HSimExampleW Proof.AxHeapExample.
+From SCC Require Import Sem.WfGuard64 Proof.SizeA64Fine Proof.A64WfAll Proof.A64WfProg Proof.A64WfCor Proof.A64HSimExample Proof.A64HSimExampleW Proof.AxHeapExample.
 
 Theorem C14_a64_compile_asm_wf :
   forall (p : prog) (lc : N) (cs : list A64.acode) (n : nat) (lc' : N),
@@ -373,9 +374,23 @@ Theorem C14_a64_compile_code_small :
     A64.a64_compile p lc = Ok (cs, n, lc') -> A64SimAddr.code_small cs = true.
 Proof. exact a64_compile_code_small. Qed.
 Print Assumptions C14_a64_compile_code_small.
-Theorem C14_a64_reach_guard_size_guard : forall p : prog, reach_guard_a64 p = true -> size_guard p = true.
-Proof. exact reach_size_guard. Qed.
-Print Assumptions C14_a64_reach_guard_size_guard.
+Theorem C14_a64_compile_code_small_reach :
+  forall (p : prog) (lc : N) (cs : list A64.acode) (n : nat) (lc' : N),
+    lin_check_prog p = true -> reach_guard_a64 p = true ->
+    A64.a64_compile p lc = Ok (cs, n, lc') -> A64SimAddr.code_small cs = true.
+Proof. exact a64_compile_code_small_reach. Qed.
+Print Assumptions C14_a64_compile_code_small_reach.
+(* the bound of the reach guard: a two-weight refinement of the size theorem of C19 (14 instructions per simple unit,
+   74 per unit of a memory operation), never worse than it *)
+Theorem C14_a64_compile_fine_size :
+  forall (p : prog) (lc : N) (r : list A64.acode) (n : nat) (lc' : N),
+    SizeWf.sub_wf_prog p = true -> A64.a64_compile p lc = Ok (r, n, lc') -> (AxSize.len r <= a64_fine_bound p)%N.
+Proof. exact a64_compile_fine_size. Qed.
+Print Assumptions C14_a64_compile_fine_size.
+Theorem C14_a64_fine_bound_le :
+  forall ds : list def, (cg_fine_defs A64_K0 A64_KM ds <= A64_KM * AxSize.cg_bound_defs ds)%N.
+Proof. exact (cg_fine_defs_le A64_K0 A64_KM ltac:(vm_compute; discriminate)). Qed.
+Print Assumptions C14_a64_fine_bound_le.
 
 (* the back-end methods, for all arguments the generic code generator can hand over *)
 Theorem C14_a64_arith_wf :
